@@ -139,8 +139,18 @@ pub fn convert_bsei_stsei(
     let bsei_amount_with_fee: Uint128;
     if state.bsei_exchange_rate < threshold {
         let max_peg_fee = bsei_amount * recovery_fee;
-        let required_peg_fee = (total_bsei_supply + current_batch.requested_bsei_with_fee)
-            .checked_sub(state.total_bond_bsei_amount)?;
+        let bsei_claims = total_bsei_supply + current_batch.requested_bsei_with_fee;
+        let peg_gap = bsei_claims.checked_sub(state.total_bond_bsei_amount)?;
+        // only rate * (amount - fee) coins leave the bsei pool while `amount` claims are burnt, so
+        // the fee that restores the peg is the gap scaled by remaining claims over backing
+        let required_peg_fee = if state.total_bond_bsei_amount.is_zero() {
+            peg_gap
+        } else {
+            peg_gap.multiply_ratio(
+                bsei_claims.checked_sub(bsei_amount)?,
+                state.total_bond_bsei_amount,
+            )
+        };
         let peg_fee = Uint128::min(max_peg_fee, required_peg_fee);
         bsei_amount_with_fee = bsei_amount.checked_sub(peg_fee)?;
     } else {
